@@ -424,7 +424,17 @@ impl<CS: BbsCiphersuite> PoKSignature<BBSplus<CS>> {
         let api_id = CS::API_ID_BLIND;
 
         let U = proof.m_cap.len();
-        let M = disclosed_indexes.len() + disclosed_commitment_indexes.len() + U - 1 - L;
+        // L, like the indexes, comes from the presentation: U + R counts the L signer
+        // messages, the blind factor and the M committed messages
+        let M = (disclosed_indexes.len() + disclosed_commitment_indexes.len() + U)
+            .checked_sub(1)
+            .and_then(|n| n.checked_sub(L))
+            .ok_or_else(|| Error::PoKSVerificationError("L is too large".to_owned()))?;
+        if disclosed_commitment_indexes.iter().any(|&j| j >= M) {
+            return Err(Error::PoKSVerificationError(
+                "Invalid disclosed commitment indexes".to_owned(),
+            ));
+        }
 
         let (message_scalars, generators) = prepare_parameters::<CS>(
             Some(disclosed_messages),
